@@ -118,6 +118,56 @@ func (c *Ctx) ruleTruncationMargin(id string) (minMargin int64) {
 			n++
 			key := fmt.Sprintf("TruncateBefore#%d in %s", i, c.fname(f))
 			arg := conversionsOnly(cl.Arg(0))
+			guardBlock := cl.Instr.Block()
+			// the truncation point may be computed by a helper that also says whether to truncate at all
+			// (before, ok := truncationPoint(offset); if !ok { return }): judged where the helper returns it
+			if ex, isEx := arg.(*ssa.Extract); isEx {
+				if cv, isCall := ex.Tuple.(*ssa.Call); isCall {
+					if g := cv.Call.StaticCallee(); g != nil && len(g.Blocks) > 0 && c.P.IsModPkg(g.Pkg.Pkg) {
+						var valRet *ssa.Return
+						nVal := 0
+						for _, gb := range g.Blocks {
+							if r, isRet := gb.Instrs[len(gb.Instrs)-1].(*ssa.Return); isRet && ex.Index < len(r.Results) {
+								if _, isConst := r.Results[ex.Index].(*ssa.Const); !isConst {
+									valRet = r
+									nVal++
+								}
+							}
+						}
+						// the caller truncates only under a result that is true on that return alone
+						gated := false
+						if nVal == 1 {
+							for _, cc := range controllingConds(cl.Instr.Block(), nil) {
+								fx, isFx := cc.cond.(*ssa.Extract)
+								if !isFx || fx.Tuple != ssa.Value(cv) || fx.Index >= len(valRet.Results) {
+									continue
+								}
+								okFlag := true
+								for _, gb := range g.Blocks {
+									if r, isRet := gb.Instrs[len(gb.Instrs)-1].(*ssa.Return); isRet {
+										k, isK := r.Results[fx.Index].(*ssa.Const)
+										want := r == valRet
+										if !cc.pol {
+											want = !want
+										}
+										if !isK || k.Value == nil || k.Value.Kind() != constant.Bool || constant.BoolVal(k.Value) != want {
+											okFlag = false
+										}
+									}
+								}
+								if okFlag {
+									gated = true
+								}
+							}
+						}
+						if gated {
+							arg = conversionsOnly(valRet.Results[ex.Index])
+							guardBlock = valRet.Block()
+							c.R.Fn(c.fname(g))
+						}
+					}
+				}
+			}
 			bo, ok := arg.(*ssa.BinOp)
 			if !ok || bo.Op != token.SUB {
 				ru.Fail(key, c.whereI(cl.Instr), "the truncation point is not of the form offset - constant: nothing keeps a margin behind the consumer")
@@ -131,7 +181,7 @@ func (c *Ctx) ruleTruncationMargin(id string) (minMargin int64) {
 			// guard: some dominating true-branch of (k < x) with k >= c, same x term
 			xt := core.Term(bo.X)
 			guarded := false
-			for _, cc := range controllingConds(cl.Instr.Block(), nil) {
+			for _, cc := range controllingConds(guardBlock, nil) {
 				// the condition as it holds on the way to the call (an early return guards by its false branch)
 				a := orderAtom(cc.cond, !cc.pol)
 				if a.kind != "order" {
